@@ -340,7 +340,7 @@ def metropolis_scenarios(ctx, rnd):
         n = rnd.choice([1, 2, 3, 5, 8, 13, 20, 40] if not ctx.quick else [1, 2, 3, 5, 8, 13, 20])
         w = rnd.choice([0, 0, 1, 2, 3, 5, 10])
         out.append(dict(kernel="metropolis", tg=tg, d=d, x0=valid_start(rnd, tg, d, rnd.random() < 0.5), sigma=sigma, n=n, warmup=w,
-                        seed=rnd.randint(0, 2 ** 31 - 1)))
+                        seed=(0 if rnd.random() < 0.08 else rnd.randint(0, 2 ** 31 - 1))))
     # starts outside the statement's hypothesis (mechanism only: +-inf starts are refused)
     out.append(dict(kernel="metropolis", tg=dict(fam="flat", box=1.0, ret="float"), d=1, x0=[2.0], sigma=0.5, n=2, warmup=0, seed=1))
     out.append(dict(kernel="metropolis", tg=dict(fam="gauss", s=1.0, nan=[0.0, 1.0], ret="float"), d=1, x0=[0.5], sigma=0.5, n=2,
@@ -372,7 +372,7 @@ def nuts_scenarios(ctx, rnd):
         stepsize = rnd.choice([0.1, 0.5, 1.0, 2.0]) if (zero_grad or rnd.random() < 0.5) else None
         md = rnd.choice([0, 1, 2, 3, 3, None])
         sc = dict(kernel="nuts", tg=tg, d=d, x0=valid_start(rnd, tg, d, rnd.random() < 0.5), n=n, n_adapt=n_adapt, stepsize=stepsize,
-                  max_depth=md, seed=rnd.randint(0, 2 ** 31 - 1))
+                  max_depth=md, seed=(0 if rnd.random() < 0.08 else rnd.randint(0, 2 ** 31 - 1)))
         if f28_class(sc):                      # that input class is finding F28 (pinned below), not sampled
             sc["n_adapt"] = n
         out.append(sc)
